@@ -49,10 +49,10 @@ type State struct {
 	env   map[ssa.Value]*Expr // term of each SSA value computed so far
 	rng   map[string]ISet     // atom key -> value set (ints; bools 0/1; nilness 0=nil 1=non-nil under key "nn:"+key)
 	facts map[string]Fact
-	mem   map[string]*Expr // address key -> stored value term
-	memE  map[string]*Expr // address key -> address term
+	mem   map[string]*Expr  // address key -> stored value term
+	memE  map[string]*Expr  // address key -> address term
 	ver   map[string]string // alias class -> version token (site of the last may-aliasing write)
-	fresh map[string]bool  // alloc leaf keys that are fresh (zero-initialised, unaliased)
+	fresh map[string]bool   // alloc leaf keys that are fresh (zero-initialised, unaliased)
 	types map[string]TypeSet
 	may   map[string]bool // events that happened on some path to here
 	must  map[string]bool // events that happened on every path to here
@@ -167,7 +167,8 @@ func (s *State) rangeOfD(e *Expr, depth int) ISet {
 	r := structuralRange(e)
 	if v, ok := s.rng[e.Key]; ok {
 		r = r.Intersect(v)
-	} else if s.an != nil && s.an.AtomHook != nil {
+	}
+	if s.an != nil && s.an.AtomHook != nil {
 		if v, ok := s.an.AtomHook(e); ok {
 			r = r.Intersect(v)
 		}
@@ -916,55 +917,70 @@ func (s *State) load(addr *Expr, typ types.Type) *Expr {
 		}
 	}
 	root := rootOf(addr)
-	if root != nil && s.fresh[root.Key] {
-		// byte-order writes (PutUintNN) into the object make element-wise and
-		// whole-array defaults unknown
-		var beas []*Expr
-		for k := range s.mem {
-			if me := s.memE[k]; me != nil && me.Op == "bea" && rootOf2(me.Args[0]) != nil && rootOf2(me.Args[0]).Key == root.Key {
-				beas = append(beas, me)
-			}
-		}
-		if len(beas) > 0 && addr.Op != "fa" {
-			if addr.Op == "alloc" && len(beas) == 1 {
-				if at, ok := typ.Underlying().(*types.Array); ok {
-					w := map[string]int64{"be16": 2, "be32": 4, "be64": 8}[beas[0].S]
-					if c, isC := beas[0].Args[1].IsConst(); isC && c == 0 && w == at.Len() {
-						return mk("bytes", typ, beas[0].S, 0, s.mem[beas[0].Key])
-					}
+	if root != nil && s.fresh[root.Key] && addr.Op == "alloc" {
+		// whole-value load of a local object: rebuild it from its parts
+		if at, ok := typ.Underlying().(*types.Array); ok {
+			var beas []*Expr
+			for k := range s.mem {
+				if me := s.memE[k]; me != nil && me.Op == "bea" && rootOf2(me.Args[0]) != nil && rootOf2(me.Args[0]).Key == root.Key {
+					beas = append(beas, me)
 				}
 			}
-			goto opaque
-		}
-		if addr.Op == "alloc" {
-			// whole-value load of a fresh alloc: build a struct term from fields
-			if st, ok := typ.Underlying().(*types.Struct); ok {
-				var args []*Expr
-				for i := 0; i < st.NumFields(); i++ {
-					f := st.Field(i)
-					fa := mkFieldAddr(addr, f.Name(), i, types.NewPointer(f.Type()))
-					args = append(args, mkStr(f.Name()), s.load(fa, f.Type()))
+			if len(beas) == 1 {
+				w := map[string]int64{"be16": 2, "be32": 4, "be64": 8}[beas[0].S]
+				if c, isC := beas[0].Args[1].IsConst(); isC && c == 0 && w == at.Len() {
+					return mk("bytes", typ, beas[0].S, 0, s.mem[beas[0].Key])
 				}
+			}
+		}
+		if st, ok := typ.Underlying().(*types.Struct); ok {
+			var args []*Expr
+			all := true
+			for i := 0; i < st.NumFields(); i++ {
+				f := st.Field(i)
+				fa := mkFieldAddr(addr, f.Name(), i, types.NewPointer(f.Type()))
+				v, has := s.mem[fa.Key]
+				if !has {
+					all = false
+					break
+				}
+				args = append(args, mkStr(f.Name()), v)
+			}
+			if all {
 				return mk("struct", typ, types.TypeString(typ, nil), 0, args...)
 			}
 		}
-		if addr.Op == "ia" {
-			if _, isC := addr.Args[1].IsConst(); !isC {
-				// non-constant index into a fresh array: may have been written
-				// at another constant index; be conservative unless no entry
-				// with the same root exists.
-				for k := range s.mem {
-					if e := s.memE[k]; e != nil && e.Op == "ia" && e.Args[0].Key == addr.Args[0].Key {
-						goto opaque
-					}
-				}
-			}
-		}
-		return zeroValue(typ)
 	}
-opaque:
+
 	cls := aliasClass(addr)
 	return mk("ld", typ, "@"+s.ver[cls], 0, addr)
+}
+
+// zeroInit records the zero value of a freshly allocated object explicitly
+// (field-wise for structs, element-wise for small arrays), so that absence of
+// an entry always means "unknown".
+func (s *State) zeroInit(addr *Expr, t types.Type, site string) {
+	switch u := t.Underlying().(type) {
+	case *types.Struct:
+		for i := 0; i < u.NumFields(); i++ {
+			f := u.Field(i)
+			fa := mkFieldAddr(addr, f.Name(), i, types.NewPointer(f.Type()))
+			s.mem[fa.Key] = zeroValue(f.Type())
+			s.memE[fa.Key] = fa
+		}
+	case *types.Array:
+		if u.Len() <= 32 {
+			arr := mk("arr", types.NewPointer(t), "", u.Len(), addr)
+			for i := int64(0); i < u.Len(); i++ {
+				ia := mkIndexAddr(arr, mkConst(i, intT), types.NewPointer(u.Elem()))
+				s.mem[ia.Key] = zeroValue(u.Elem())
+				s.memE[ia.Key] = ia
+			}
+		}
+	default:
+		s.mem[addr.Key] = zeroValue(t)
+		s.memE[addr.Key] = addr
+	}
 }
 
 func mayAlias(s *State, a, b *Expr) bool {
@@ -1094,7 +1110,14 @@ func (s *State) join(o *State, widen bool, joinTok string) bool {
 			changed = true
 			continue
 		}
-		delete(s.env, v)
+		if ok {
+			// same instruction evaluated under a newer memory version or a
+			// more general operand: adopt the newer term (facts about the
+			// old one that the other state does not share are dropped below)
+			s.env[v] = oe
+		} else {
+			delete(s.env, v)
+		}
 		changed = true
 	}
 	for k, r := range s.rng {
@@ -1140,21 +1163,24 @@ func (s *State) join(o *State, widen bool, joinTok string) bool {
 			delete(s.mem, k)
 			delete(s.memE, k)
 			if e != nil {
-				s.ver[aliasClass(e)] = joinTok
+				cls := aliasClass(e)
+				s.ver[cls] = unionTok(unionTok(s.ver[cls], o.ver[cls]), joinTok)
 			}
 			changed = true
 		}
 	}
 	for k, v := range o.ver {
-		if s.ver[k] != v && s.ver[k] != joinTok {
-			s.ver[k] = joinTok
+		if u := unionTok(s.ver[k], v); u != s.ver[k] {
+			s.ver[k] = u
 			changed = true
 		}
 	}
 	for k, v := range s.ver {
-		if ov, ok := o.ver[k]; (!ok || ov != v) && v != joinTok {
-			s.ver[k] = joinTok
-			changed = true
+		if _, ok := o.ver[k]; !ok {
+			if u := unionTok(v, ""); u != v {
+				s.ver[k] = u
+				changed = true
+			}
 		}
 	}
 	for k := range s.fresh {
@@ -1238,6 +1264,64 @@ func (s *State) transferTo(leaf, e *Expr, src *State) {
 func (s *State) event(name string) {
 	s.may[name] = true
 	s.must[name] = true
+}
+
+// fingerprint renders everything that matters for change detection.
+func (s *State) fingerprint() string {
+	var sb strings.Builder
+	sb.WriteString(s.digest())
+	sb.WriteString("#M")
+	for _, k := range sortedKeys(s.mem) {
+		sb.WriteString(k + "=" + s.mem[k].Key + ";")
+	}
+	sb.WriteString("#V")
+	for _, k := range sortedKeys(s.ver) {
+		sb.WriteString(k + "=" + s.ver[k] + ";")
+	}
+	sb.WriteString("#T")
+	for _, k := range sortedKeys(s.types) {
+		sb.WriteString(k + "=" + s.types[k].String() + ";")
+	}
+	sb.WriteString("#E")
+	es := make([]string, 0, len(s.env))
+	for v, e := range s.env {
+		es = append(es, v.Name()+"="+e.Key)
+	}
+	sort.Strings(es)
+	sb.WriteString(strings.Join(es, ";"))
+	sb.WriteString("#Y")
+	sb.WriteString(strings.Join(sortedKeys(s.may), ","))
+	sb.WriteString("#U")
+	sb.WriteString(strings.Join(sortedKeys(s.must), ","))
+	sb.WriteString("#F")
+	sb.WriteString(strings.Join(sortedKeys(s.fresh), ","))
+	return sb.String()
+}
+
+// unionTok joins two memory-version tokens. A token is a "|"-separated sorted
+// set of write-site names ("0" stands for the function entry); the union is
+// a finite lattice, so fixpoint iteration converges and the same set of
+// possible memory contents gets the same name in every block.
+func unionTok(a, b string) string {
+	if a == b {
+		return a
+	}
+	set := map[string]bool{}
+	for _, t := range []string{a, b} {
+		if t == "" {
+			set["0"] = true
+			continue
+		}
+		for _, x := range strings.Split(t, "|") {
+			set[x] = true
+		}
+	}
+	ks := make([]string, 0, len(set))
+	for k := range set {
+		ks = append(ks, k)
+	}
+	sort.Strings(ks)
+	return strings.Join(ks, "|")
 }
 
 // digest is a canonical rendering of the state (debugging / reports).
